@@ -107,10 +107,3 @@ Theorem C13_fixed_F01e :
 Proof. exact fixed_F01e. Qed.
 Print Assumptions C13_fixed_F01e.
 
-(* F13e (open): a component schema named like a primitive type.  The annotation texts come from the type resolver,
-   which is outside this model; the finding is established by the pipeline replay, and this theorem only fixes the
-   guard that attributes it. *)
-Theorem C13_guard_F13e_witness :
-  guard_F13e [[115;116;114;105;110;103]] = false /\ guard_F13e [[73;116;101;109]; [85;115;101;114;115]] = true.
-Proof. exact guard_F13e_witness. Qed.
-Print Assumptions C13_guard_F13e_witness.
